@@ -20,6 +20,8 @@ pub struct Cfg {
     pub partial: bool,
     pub skip_ws: bool,
     pub raw: bool,
+    /// LR: call parser_algo(LR) explicitly after the other setters, as rcomp does
+    pub lr_last: bool,
 }
 
 impl Cfg {
@@ -43,6 +45,7 @@ impl Cfg {
             partial: b("partial", false),
             skip_ws: b("skip_ws", true),
             raw: b("raw", false),
+            lr_last: b("lr_last", false),
             algo,
         }
     }
@@ -74,6 +77,10 @@ impl Cfg {
             .skip_ws(self.skip_ws);
         if self.algo == "glr" {
             s = s.lexical_disamb_grammar_order(self.go);
+        }
+        if self.algo == "lr" && self.lr_last {
+            // documented: choosing LR changes nothing else
+            s = s.parser_algo(ParserAlgo::LR);
         }
         s
     }
